@@ -90,7 +90,8 @@ pub const RECORD_WORDS: usize = 9; // 72 bytes from offset 32
 /// The bounded damage classes for one header page.
 pub fn damages(pagesize: usize, tier: Tier) -> Vec<Damage> {
     let mut out = vec![];
-    let dense = if tier == Tier::Quick { 128 } else { 160 };
+    // thorough: every other byte value at every offset of a 1 KiB page (256 for larger pages)
+    let dense = if tier == Tier::Quick { 128 } else if pagesize <= 1024 { pagesize } else { 256 };
     for off in 0..pagesize {
         if off < dense {
             // all 255 other values are produced by xor with 1..=255
